@@ -256,7 +256,7 @@ Qed.
 Lemma lookup_ways_map : forall (g : list Z -> list waynode) (raw : list raw_way) id,
   lookup_way (map (fun w => mkWay (fst w) (g (snd w))) raw) id =
   option_map (fun w => mkWay (fst w) (g (snd w))) (find (fun a : raw_way => fst a =? id) (rev raw)).
-Proof. intros g raw id. unfold lookup_way. rewrite find_rev_map. reflexivity. Qed.
+Proof. intros g raw id. unfold lookup_way. rewrite <- rev_alt, find_rev_map. reflexivity. Qed.
 
 Lemma collect_step_sources : forall nodes raw c m,
   Forall not_origin nodes ->
